@@ -377,6 +377,12 @@ class Ctx:
             self.assume(z3.Select(self.field_array("$cls"), Z.Val.id(t)) == self.E.classes.cid(self.resolve_ty(ty).cls))
         elif isinstance(ty, TAbs):
             self.assume(z3.Select(self.field_array("$cls"), Z.Val.id(t)) == self.E.classes.cid("abs:" + ty.name))
+        elif isinstance(ty, TSeq):
+            self.assume(z3.Select(self.field_array("$cls"), Z.Val.id(t)) == self.E.classes.cid("abs:$" + ty.kind))
+        elif isinstance(ty, TMap):
+            self.assume(z3.Select(self.field_array("$cls"), Z.Val.id(t)) == self.E.classes.cid("abs:$dict"))
+        elif isinstance(ty, TTuple):
+            self.assume(z3.Select(self.field_array("$cls"), Z.Val.id(t)) == self.E.classes.cid("abs:$tuple"))
 
     def touch(self, sv, depth=2):
         """eagerly assume the shape invariants of every declared field of an object (the pre-state is well-shaped)"""
@@ -473,6 +479,10 @@ class Ctx:
             return SV(Z.mk_flt(repr(x)), TNum(only="float"))
         if isinstance(x, str):
             return SV(Z.mk_str(x), TStr())
+        if isinstance(x, VDict) and getattr(x, "sym", None) is not None:
+            return x.sym
+        if isinstance(x, VDict) and getattr(x, "sym", None) is not None:
+            return x.sym
         if type(x).__name__ in ("Coro", "CtxMgr") or isinstance(x, (Closure, BoundMethod, ClassInfo, ExternalRef, ModuleInfo, Builtin, VTuple, VList, VDict, VSet, PartialFn, AbstractMethod, FunctionInfo, TypeOf, SeqMethod)):
             key = None
             if isinstance(x, BoundMethod) and isinstance(x.self_val, SV):
@@ -523,7 +533,12 @@ class Ctx:
         if isinstance(v, (VTuple, VList, VSet)):
             return len(v.items) > 0
         if isinstance(v, VDict):
+            if getattr(v, "sym", None) is not None:
+                raise Unsupported("truthiness of a dict with symbolic keys")
             return len(v.items) > 0
+        if isinstance(v, SymSet):
+            k = z3.Const("ssk", Z.Val)
+            return z3.Exists([k], v.pred(k))
         return True
 
     def isa_formula(self, cidt, cls):
